@@ -131,8 +131,24 @@ pub fn step_family(ctx: &mut Ctx) {
                     }
                     ctx.record(id, &okey, v, || format!("{} state {{{}}}", name, m0.key()));
                 }
-                // list unpacking: a list on top of EXEC is replaced by its elements, first element on top
-                for list in [Tree::L(vec![]), Tree::L(vec![Tree::I(1)]), Tree::L(vec![Tree::I(1), Tree::L(vec![Tree::I(2), Tree::I(3)]), Tree::name("A")])] {
+                // list unpacking: a list on top of EXEC is replaced by its elements, first element on top;
+                // literal dispatch: every kind of literal goes to the stack of its type, an unknown
+                // instruction name does nothing, a name goes to NAME (unbound) -- the interpreter step itself
+                for list in [
+                    Tree::L(vec![]),
+                    Tree::L(vec![Tree::I(1)]),
+                    Tree::L(vec![Tree::I(1), Tree::L(vec![Tree::I(2), Tree::I(3)]), Tree::name("A")]),
+                    Tree::B(true),
+                    Tree::I(i32::MIN),
+                    Tree::F(f32::NAN),
+                    Tree::Idx(1, 3),
+                    Tree::BV(vec![true, false]),
+                    Tree::IV(vec![]),
+                    Tree::FV(vec![1.5]),
+                    Tree::Graph(crate::alpha::graph_small()),
+                    Tree::name("UNBOUND"),
+                    Tree::ins("NO.SUCH.INSTRUCTION"),
+                ] {
                     let id = match ctx.take() {
                         Some(id) => id,
                         None => continue,
